@@ -15,16 +15,19 @@ RULE = ('message sequences from an independent RFC 7230 serializer (harness/stre
 	'non-trivial = distinct message sequence with at least one body or repeated field')
 EXHAUSTIVE = {'quick': False, 'thorough': False}
 TRUSTED = pc.TRUSTED_COMMON + ['harness/streams.py gen_wf: the independent serializer and its ground truth']
-ASSUMPTIONS = ['304 responses that carry a Content-Length are read with a body by the client (known finding D50) and excluded from the comparison', 'GET/HEAD/TRACE requests that carry a payload are refused by policy (known finding D57) and excluded from the comparison', 'responses whose reason phrase is empty are refused by the client (known finding D48) and excluded from the comparison', 'requests that carry neither Content-Length nor chunked framing are compared only when nothing follows them in the same parse() call (known finding D13)']
+ASSUMPTIONS = ['requests whose method token contains ! # ` | ~ or is longer than 20 octets are refused (known finding D61) and excluded from the comparison', '304 responses that carry a Content-Length are read with a body by the client (known finding D50) and excluded from the comparison', 'GET/HEAD/TRACE requests that carry a payload are refused by policy (known finding D57) and excluded from the comparison', 'responses whose reason phrase is empty are refused by the client (known finding D48) and excluded from the comparison', 'requests that carry neither Content-Length nor chunked framing are compared only when nothing follows them in the same parse() call (known finding D13)']
 D13 = 'D13-411-buffer-peek'
 D48 = 'D48-empty-reason-phrase'
 D57 = 'D57-payload-on-get-head-trace'
+D61 = 'D61-method-grammar-narrower-than-token'
+_W61 = b'A!B / HTTP/1.1\r\nHost: h\r\n\r\n'
 D50 = 'D50-client-reads-body-of-bodiless-response'
 _W50 = b'HTTP/1.1 304 Not Modified\r\nContent-Length: 5\r\n\r\n'
 _W57 = b'GET / HTTP/1.1\r\nHost: h\r\nContent-Length: 2\r\n\r\nab'
 _W48 = b'HTTP/1.1 204 \r\nX: y\r\n\r\n'
 WITNESSES = [(D48, {'k': 'wf', 'kind': 'client', 'gt': [{'version': [1, 1], 'status': 204, 'reason': '', 'fields': {'x': [b'y'.hex()]}, 'body': '', 'framed': True}], 'sers': [_W48.hex()], 'trunc': [5]}),
 	(D50, {'k': 'wf', 'kind': 'client', 'gt': [{'version': [1, 1], 'status': 304, 'reason': 'Not Modified', 'rep_length': 5, 'fields': {'content-length': [b'5'.hex()]}, 'body': '', 'framed': True}], 'sers': [_W50.hex()], 'trunc': [5]}),
+	(D61, {'k': 'wf', 'kind': 'server', 'gt': [{'version': [1, 1], 'method': 'A!B', 'path': '/', 'query': '', 'host': 'h', 'target': b'/'.hex(), 'fields': {'host': [b'h'.hex()]}, 'body': '', 'framed': False}], 'sers': [_W61.hex()], 'trunc': [5]}),
 	(D57, {'k': 'wf', 'kind': 'server', 'gt': [{'version': [1, 1], 'method': 'GET', 'path': '/', 'query': '', 'host': 'h', 'target': b'/'.hex(), 'fields': {'host': [b'h'.hex()], 'content-length': [b'2'.hex()]}, 'body': b'ab'.hex(), 'framed': True}], 'sers': [_W57.hex()], 'trunc': [5]})]
 
 
@@ -164,6 +167,11 @@ def classify(c, o, fail):
 	if m and c['kind'] == 'server' and int(m.group(1)) < len(c['gt']) and c['gt'][int(m.group(1))].get('method') in ('GET', 'HEAD', 'TRACE') and c['gt'][int(m.group(1))]['body']:
 		# the refused message is a GET/HEAD/TRACE request that carries a payload
 		return D57
+	if m and c['kind'] == 'server' and int(m.group(1)) < len(c['gt']):
+		meth = c['gt'][int(m.group(1))].get('method', '')
+		if len(meth) > 20 or any(ch in meth for ch in '!#`|~'):
+			# the refused message has a method token outside the code's narrower grammar
+			return D61
 	return None
 
 
